@@ -263,6 +263,9 @@ func c11Command(r *core.Rand, doc *ref.Doc, env MEnv) MCmd {
 			c.Summary = []string{"coffee"}
 		}
 	}
+	if c.Date != nil && r.Chance(1, 3) {
+		c.DateSlash = true
+	}
 	if (c.Kind == "start" || c.Kind == "stop" || c.Kind == "switch") && c.Round == 0 && r.Chance(1, 3) {
 		c.Round = r.PickInt(5, 15, 30, 60) // also together with an explicit --time (which is taken as typed)
 	}
@@ -442,7 +445,7 @@ func c11Check(e *core.Env, r *core.Rand, text string, rec *ref.Recognition, cmd 
 			want := permitB(target.dashes, others.dashes, true)
 			switch {
 			case cmd.Date != nil:
-				want = map[bool]bool{true: true} // typed with dashes by the harness
+				want = map[bool]bool{!cmd.DateSlash: true} // as typed
 			case env.CfgDateFormat != "":
 				want = map[bool]bool{env.CfgDateFormat == "YYYY-MM-DD": true}
 			}
